@@ -320,6 +320,12 @@ func (m *Manager) UpdateConfig(config configs.QueueConfig, queuePath string) err
 	// compare existing config with new configs stored in above temporary maps
 	m.clearEarlierSetLimits(userLimits, groupLimits)
 
+	// clearing a limit unlinks the idle trackers of the queues below it, including trackers that hold a limit
+	// of the new configuration: set the new limits again
+	if err := m.reapplyLimits(userLimits, groupLimits); err != nil {
+		return err
+	}
+
 	// compare existing wild card user config with new configs stored in above temporary maps
 	m.clearEarlierSetUserWildCardLimits(userWildCardLimitsConfig, userLimits)
 
@@ -396,6 +402,25 @@ func (m *Manager) internalProcessConfig(cur configs.QueueConfig, queuePath strin
 		for _, child := range cur.Queues {
 			childQueuePath := queuePath + configs.DOT + child.Name
 			if err := m.internalProcessConfig(child, childQueuePath, newUserLimits, newGroupLimits, newUserWildCardLimitsConfig, newGroupWildCardLimitsConfig, newConfiguredGroups); err != nil {
+				return err
+			}
+		}
+	}
+	return nil
+}
+
+// reapplyLimits sets the user and group limits of the new configuration on the trackers
+func (m *Manager) reapplyLimits(newUserLimits map[string]map[string]*LimitConfig, newGroupLimits map[string]map[string]*LimitConfig) error {
+	for queuePath, limits := range newUserLimits {
+		for user, limitConfig := range limits {
+			if err := m.setUserLimits(user, limitConfig, queuePath); err != nil {
+				return err
+			}
+		}
+	}
+	for queuePath, limits := range newGroupLimits {
+		for group, limitConfig := range limits {
+			if err := m.setGroupLimits(group, limitConfig, queuePath); err != nil {
 				return err
 			}
 		}
